@@ -52,6 +52,10 @@ RETS = {
 def enumerate_states(tier):
     maxlen = 2 if tier == "thorough" else 1
     words, transitions = common.words(list(EXTRA), maxlen)
+    if maxlen < 2:
+        # a few two-parameter words in the quick tier too: position effects between patterns and plain parameters
+        words += [("dp", "mb"), ("wl", "mb"), ("mb", "dp"), ("i", "wl"), ("re", "mb")]
+        transitions += 5
     states = []
     for deps, w, q, r, o, feature in itertools.product(DEPS, words, QUALS, RETS, OPTS, (False, True)):
         R = RETS[r]
